@@ -622,3 +622,11 @@ package system
 //@   requires at <= len(s)
 //@   ensures ok ==> 0 <= at && at + 4 <= len(s)
 //@   assigns nothing
+// C15: a Decimal becomes a FHIR decimal whose text denotes exactly the same value
+//@ func (d Decimal) ToProtoDecimal() (res)
+//@   ensures res != nil && isDecimalLit(res.Value) && decVal(res.Value) == real(d)
+//@   fresh res
+//@ func (q Quantity) ToProtoQuantity() (res)
+//@   ensures res != nil && res.Value != nil && decVal(res.Value.Value) == real(q.value)
+//@   ensures q.unit != "" ==> res.Unit != nil && res.Unit.Value == q.unit
+//@   ensures q.unit == "" ==> res.Unit == nil
